@@ -137,6 +137,19 @@ pub fn run_kv(out_dir: &str, tmp_root: &str, seed: u64, nseq: usize, nops: usize
                 }
             }
         }
+        // persistent backends get a second live handle on the same directory / database: what one handle
+        // writes, the other must list and read (two replicas of one process sharing a folder)
+        let mut stacks2: Vec<Option<Box<dyn Adapter>>> = vec![];
+        for (i, s) in STACKS.iter().enumerate() {
+            if persistent(s) && stacks[i].is_some() {
+                match catch_unwind(AssertUnwindSafe(|| make_stack(s, &dirs[i]))) {
+                    Ok(Ok(a)) => stacks2.push(Some(a)),
+                    _ => stacks2.push(None),
+                }
+            } else {
+                stacks2.push(None);
+            }
+        }
         writeln!(f, "{}", json!({"op": "reset", "seq": sq, "be": "", "stacks": STACKS, "opened": opened})).unwrap();
         count += 1;
         // the driver's own first-write-wins shadow, used only to pick in-range slices
@@ -172,25 +185,28 @@ pub fn run_kv(out_dir: &str, tmp_root: &str, seed: u64, nseq: usize, nops: usize
             if kind <= 34 {
                 shadow.entry(k.clone()).or_insert((logged.len(), big.is_some()));
             }
+            let alt = p.chance(1, 3);       // this call goes through the second handle where there is one
             for (i, s) in STACKS.iter().enumerate() {
+                let pick = |st: &Vec<Option<Box<dyn Adapter>>>, st2: &Vec<Option<Box<dyn Adapter>>>| -> bool { alt && st2[i].is_some() && st[i].is_some() };
+                let via2 = pick(&stacks, &stacks2);
                 let ev = match kind {
                     0..=34 => {
-                        let a = match &stacks[i] { Some(a) => a, None => continue };
+                        let a = match if via2 { &stacks2[i] } else { &stacks[i] } { Some(a) => a, None => continue };
                         let (res, _) = outcome(catch_unwind(AssertUnwindSafe(|| a.write_object(&k, &data))));
                         json!({"op": "Write", "seq": sq, "be": s, "k": k, "v": logged, "res": res})
                     }
                     35..=59 => {
-                        let a = match &stacks[i] { Some(a) => a, None => continue };
+                        let a = match if via2 { &stacks2[i] } else { &stacks[i] } { Some(a) => a, None => continue };
                         let (res, v) = outcome(catch_unwind(AssertUnwindSafe(|| a.read_object(&k, 0, 0))));
                         json!({"op": "Read", "seq": sq, "be": s, "k": k, "res": res, "v": encode(&v.unwrap_or_default(), is_chunked)})
                     }
                     60..=74 => {
-                        let a = match &stacks[i] { Some(a) => a, None => continue };
+                        let a = match if via2 { &stacks2[i] } else { &stacks[i] } { Some(a) => a, None => continue };
                         let (res, v) = outcome(catch_unwind(AssertUnwindSafe(|| a.read_object(&k, so * unit, sl * unit))));
                         json!({"op": "Slice", "seq": sq, "be": s, "k": k, "off": so, "len": sl, "unit": unit, "res": res, "v": encode(&v.unwrap_or_default(), is_chunked)})
                     }
                     75..=92 => {
-                        let a = match &stacks[i] { Some(a) => a, None => continue };
+                        let a = match if via2 { &stacks2[i] } else { &stacks[i] } { Some(a) => a, None => continue };
                         let (res, v) = outcome(catch_unwind(AssertUnwindSafe(|| a.list_objects(&ext))));
                         let mut l = v.unwrap_or_default();
                         l.sort();
@@ -200,11 +216,15 @@ pub fn run_kv(out_dir: &str, tmp_root: &str, seed: u64, nseq: usize, nops: usize
                         if !persistent(s) {
                             continue;
                         }
-                        stacks[i] = None; // drop the handle first (closes the database / directory handle)
+                        stacks[i] = None; // drop the handles first (closes the database / directory handle)
+                        stacks2[i] = None;
                         let r = catch_unwind(AssertUnwindSafe(|| make_stack(s, &dirs[i])));
                         let res = match r {
                             Ok(Ok(a)) => {
                                 stacks[i] = Some(a);
+                                if let Ok(Ok(b)) = catch_unwind(AssertUnwindSafe(|| make_stack(s, &dirs[i]))) {
+                                    stacks2[i] = Some(b);
+                                }
                                 "ok"
                             }
                             Ok(Err(_)) => "err",
@@ -218,6 +238,7 @@ pub fn run_kv(out_dir: &str, tmp_root: &str, seed: u64, nseq: usize, nops: usize
             }
         }
         drop(stacks);
+        drop(stacks2);
         for d in &dirs {
             let _ = std::fs::remove_dir_all(d);
         }
